@@ -4,3 +4,4 @@ import SpecVerif.Model.Py
 import SpecVerif.Props.C13
 import SpecVerif.Props.C15
 import SpecVerif.Props.C18
+import SpecVerif.Props.C11
